@@ -62,6 +62,8 @@ func init() {
 						if sibling != nil { // nil: the sibling's start failed in this schedule (timer first)
 							serveCert = *sibling
 						}
+					case "chain-with-announced": // its own leaf (whose key it holds) with the announced certificate appended behind it
+						serveCert = tls.Certificate{Certificate: [][]byte{certB.Certificate[0], certA.Certificate[0]}, PrivateKey: certB.PrivateKey}
 					case "legit":
 						sibling = &certA
 					}
@@ -153,7 +155,7 @@ func init() {
 		Instances: func(tier string) []explore.Params {
 			var out []explore.Params
 			for _, proto := range []string{"netrpc", "grpc"} {
-				for _, m := range []string{"legit", "other-cert", "plaintext", "sibling-cert", "nocert-plaintext"} {
+				for _, m := range []string{"legit", "other-cert", "plaintext", "sibling-cert", "nocert-plaintext", "chain-with-announced"} {
 					if proto == "netrpc" {
 						// crypto/tls holds its (real) handshake mutex across a blocking read while yamux's
 						// second goroutine waits for that mutex: not durably blocked, the bubble stalls.
